@@ -35,6 +35,7 @@ type FuncResult struct {
 	Contract    *Contract
 	NInstr      int
 	Err         error
+	vc          *VC // generator state, kept for counterexample replay
 }
 
 func NewVC(g *Global, fn *ssa.Function, c *Contract) *VC {
@@ -68,6 +69,7 @@ func GenerateFunc(g *Global, fn *ssa.Function, c *Contract) (res *FuncResult) {
 		}
 	}()
 	vc.run()
+	res.vc = vc
 	res.Obls = vc.obls
 	res.Decls = vc.decls
 	res.Axioms = vc.axioms
@@ -803,6 +805,7 @@ type compMetaT struct {
 // ---------- blocks and instructions ----------
 
 func (vc *VC) processBlock(b *ssa.BasicBlock, st *State, region map[*ssa.BasicBlock]bool, start *ssa.BasicBlock, edgeStates map[edge]*State) {
+	vc.curBlock = b
 	for _, in := range b.Instrs {
 		vc.curPos = in.Pos()
 		switch x := in.(type) {
@@ -831,6 +834,10 @@ func (vc *VC) processBlock(b *ssa.BasicBlock, st *State, region map[*ssa.BasicBl
 func (vc *VC) branch(b *ssa.BasicBlock, succIdx int, st *State, cond Term, region map[*ssa.BasicBlock]bool, start *ssa.BasicBlock, edgeStates map[edge]*State) {
 	s := b.Succs[succIdx]
 	if cond == "false" {
+		if vc.infeasible == nil {
+			vc.infeasible = map[edge]bool{}
+		}
+		vc.infeasible[edge{b.Index, s.Index}] = true
 		return // statically infeasible edge
 	}
 	ns := st.clone()
@@ -1423,7 +1430,9 @@ func (vc *VC) doReturn(st *State, x *ssa.Return) {
 		if err != nil {
 			sfail("ensures %q: %v", en.Src, err)
 		}
+		vc.curClause = en.E
 		vc.oblige(st, "post", fmt.Sprintf("%s@r%d", tag, retOrd), t, en.Src)
+		vc.curClause = nil
 	}
 	for i, pw := range c.PanicsWhen {
 		pe := vc.baseEnv(vc.entry)
